@@ -49,3 +49,17 @@ Fixpoint reopen_requests (closed : nat -> bool) (answers : nat -> bool) (retry i
 Definition answers_of (fails : nat) : nat -> bool := fun i => fails <=? i.           (* the first `fails` requests fail *)
 Definition closed_of (k : option nat) : nat -> bool :=
   fun i => match k with Some k => k <=? i | None => false end.                        (* closed from attempt k on *)
+
+(* helpers.Retry(f, attempts, sleep) (helpers/utils.go), the retry helper of the RPC client between leader and followers:
+   f is called until it succeeds, at most `attempts` times; the result is nil on a success and the last error otherwise
+   (and nil when attempts = 0: nothing was tried).  answers i: does the i-th call succeed?  Result: calls made, err == nil *)
+Fixpoint helper_retry (answers : nat -> bool) (attempts i : nat) : nat * bool :=
+  match attempts with
+  | 0 => (0, true)
+  | S r =>
+      if answers i then (1, true) else
+      match r with
+      | 0 => (1, false)
+      | S _ => let '(n, ok) := helper_retry answers r (S i) in (S n, ok)
+      end
+  end.
